@@ -3,19 +3,22 @@
    Full statement (DiffRound.diff_round_ok): for reachable P and S of equal size, a fresh parser
    fed P.state_formatted() and then S.state_diff(P) ends with obs = obs S.
 
-   Status: PARTIAL.
-   * the full statement is FALSE of the faithful model and of the crate: C02_refuted gives the
-     witness (open known finding D10, KNOWN_FINDINGS.txt), found by the correspondence check
-     and replayed on the implementation;
-   * proved for all reachable P, S (no size hypothesis): both emitters succeed, every token they
+   Status: PROVED for all reachable pairs of equal size at scrollback offset 0 (Props/C02all.v,
+   C02sem_all, with chains), AFTER the repair of finding D10 in Grid::write_contents_diff
+   (Emit.clears_wrap: the rows loop no longer assumes that the receiver still has the wrap flag of a
+   row when its own output for that row has drawn over a wide character ending in the last column).
+   This file keeps the statement, the regression witness for the old loop, and the emitter-level
+   facts:
+   * with the loop as it was before the repair the statement was FALSE: C02_old_loop_refuted gives the
+     witness (finding D10), which the repaired loop round-trips (C02_d10_repaired, C02_d10_round_trips);
+   * for all reachable P, S (no size hypothesis): both emitters succeed, every token they
      emit re-parses from any ground parser state to exactly the intended actions, and a receiver
      Parser performs exactly those actions (C02_total, C02_bytes);
-   * proved: a diff against an observationally equal screen contains no token (C02_equal_obs) and
-     the diff depends only on the two observations (C02_factor);
-   * the semantic statement on the complement of the D10 class is decided by the differential
-     correspondence of the diff bytes plus the implementation-level oracle (DESIGN 7, C02). *)
+   * a diff against an observationally equal screen contains no token (C02_equal_obs; the first screen
+     must be cell-wise well formed, screen_wf, since the repaired loop looks at the cells) and
+     the diff depends only on the two observations (C02_factor). *)
 Require Import Tac ListN Attrs Cell Row Grid Screen Vte Perform Parser Term Emit.
-Require Import GridInv ScreenInv ParseSer CellWf WfInv SgrSpec EmitSafe AttrsInv EmitTokens ObsSpec DiffRound.
+Require Import GridInv ScreenInv ParseSer CellWf WfInv SgrSpec EmitSafe AttrsInv EmitTokens ObsSpec DiffRound DiffHistory.
 Open Scope N_scope.
 
 (* ---- the statement, restated ---- *)
@@ -29,17 +32,30 @@ Theorem C02_statement_def : forall Pr Sc,
 Proof. intros Pr Sc. reflexivity. Qed.
 Print Assumptions C02_statement_def.
 
-(* ---- the unrestricted statement is false: finding D10 ---- *)
-Theorem C02_refuted : exists Pr Sc,
+(* ---- finding D10, repaired ---- *)
+(* With the rows loop as it was BEFORE the repair (DiffHistory.rows_diff_loop_old: prev_wrapping = the
+   flag of prev's row) the unrestricted statement was false: *)
+Theorem C02_old_loop_refuted : exists Pr Sc,
   reachable Pr /\ reachable Sc /\ grows (cur Pr) = grows (cur Sc) /\ gcols (cur Pr) = gcols (cur Sc) /\
-  ~ diff_round_ok Pr Sc.
-Proof. exact diff_round_refuted. Qed.
-Print Assumptions C02_refuted.
+  ~ diff_round_old_ok Pr Sc.
+Proof. exact d10_refutes_old_loop. Qed.
+Print Assumptions C02_old_loop_refuted.
 
-(* the witness: 2x2, P = U+1F600 'l' CUP(1,2), S = P 'y'; the receiver loses the wrap flag of row 0 *)
-Theorem C02_refuted_witness : d10_check = Ok (false, [false; false], [true; false]).
+(* the witness: 2x2, P = U+1F600 'l' CUP(1,2), S = P 'y'; with the old loop the receiver lost the wrap
+   flag of row 0 ... *)
+Theorem C02_old_loop_witness : d10_check_old = Ok (false, [false; false], [true; false]).
+Proof. exact d10_check_old_value. Qed.
+Print Assumptions C02_old_loop_witness.
+
+(* ... with the repaired loop (Emit.clears_wrap) it keeps it: the witness round-trips *)
+Theorem C02_d10_repaired : d10_check = Ok (true, [true; false], [true; false]).
 Proof. exact d10_check_value. Qed.
-Print Assumptions C02_refuted_witness.
+Print Assumptions C02_d10_repaired.
+
+Theorem C02_d10_round_trips : exists Pr Sc,
+  after 2 2 d10_P = Ok Pr /\ after 2 2 d10_S = Ok Sc /\ reachable Pr /\ reachable Sc /\ diff_round_ok Pr Sc.
+Proof. exact d10_round_trips. Qed.
+Print Assumptions C02_d10_round_trips.
 
 (* ---- totality and exact re-parse of the diff, every pair of reachable screens ---- *)
 Theorem C02_total : forall s p, reachable s -> reachable p ->
@@ -77,10 +93,10 @@ Proof. intros s p Hs Hp. split; [apply contents_diff_ok|apply state_diff_ok]; as
 Print Assumptions C02_no_panic.
 
 (* ---- a diff against an observationally equal screen is empty ---- *)
-Theorem C02_equal_obs : forall s p o, screen_ok s -> screen_ok p -> obs s = Ok o -> obs p = Ok o ->
+Theorem C02_equal_obs : forall s p o, screen_ok s -> screen_wf s -> screen_ok p -> obs s = Ok o -> obs p = Ok o ->
   contents_diff_t s p = Ok [] /\ state_diff_t s p = Ok [] /\ input_mode_diff_t s p = [].
 Proof.
-  intros s p o Hs Hp Es Ep. destruct (ObsSpec.C19_obsdiff s p o Hs Hp Es Ep) as (A & B & C & _).
+  intros s p o Hs Ws Hp Es Ep. destruct (ObsSpec.C19_obsdiff s p o Hs Ws Hp Es Ep) as (A & B & C & _).
   split; [exact A|]. split; [exact B|exact C].
 Qed.
 Print Assumptions C02_equal_obs.
